@@ -3,9 +3,7 @@
 set -e
 cd "$(dirname "$0")"
 export GOFLAGS=-mod=mod GOPROXY=off GOSUMDB=off GOTOOLCHAIN=local CGO_ENABLED=0
-if grep -rnE '\b(Admitted|admit|Axiom|Parameter|Conjecture|Unset Guard|bypass_check|Admit Obligations)\b' coq/theories --include=*.v | grep -v '^\s*(\*'; then
-  echo "forbidden vernacular found"; exit 1
-fi
+python3 tools/scan_forbidden.py || { echo "forbidden vernacular found"; exit 1; }
 mkdir -p bin evidence replays coq/gen
 (cd coq && ./mkproject.sh && timeout 3000 make -j16 > /tmp/verif-coq-build.log 2>&1) || { tail -30 /tmp/verif-coq-build.log; exit 1; }
 cp /repo/go.sum harness/go.sum
